@@ -20,7 +20,7 @@ from sim.world import Run
 
 ID = "C43"
 LEVEL = "exploration"
-RUNS = {"quick": 24000, "thorough": 400000}
+RUNS = {"quick": 24000, "thorough": 2400000}
 BUDGET = {"quick": 100.0, "thorough": 3300.0}
 RULE = ("one run = 1-2 P2P connections issuing 1-20 requests against devices with seeded transport-layer misbehaviour and "
         "latencies, plus injected frames (ACK/NAK/data/disconnect from connected and unconnected peers) at seeded offsets; "
